@@ -333,6 +333,8 @@ where
     /// Remove key-value pair from the CAS
     pub fn remove(&self, key: &K) -> Result<bool, LibError> {
         if self.index.read_state().contains_key(key) {
+            #[cfg(feature = "verif")]
+            crate::verif::point("remove.scanned");
             let delete_fn = |hashes: &[BlobHash]| -> Result<(), CasManagerError> {
                 self.cas_manager.delete_blobs(hashes).map(|_| ())
             };
@@ -359,6 +361,8 @@ where
             state.range(range.clone()).map(|(key, _)| key.clone()).collect()
         };
 
+        #[cfg(feature = "verif")]
+        crate::verif::point("remove_range.scanned");
         if keys_to_remove.is_empty() {
             return Ok(0);
         }
@@ -391,6 +395,8 @@ where
             return Ok(None);
         };
 
+        #[cfg(feature = "verif")]
+        crate::verif::point("read.looked_up");
         match f(&item) {
             Ok(result) => Ok(Some(result)),
             Err(cas_error) => {
